@@ -21,9 +21,11 @@ CONSTANTS Modes        \* subset of {"sections", "pairs", "segments", "placement
 
 VARIABLES Mode, im, done, tag
 vars == <<Mode, im, done, tag>>
-MaxSecs == IF Mode = "pairs" THEN 2 ELSE 1
-MaxSegs == 2
+MaxSecs == IF Mode = "pairs" THEN 2 ELSE IF Mode = "triples" THEN 3 ELSE 1
+MaxSegs == IF Mode = "segments3" THEN 3 ELSE 2
 AllModes == {"sections", "pairs", "segments", "placement", "nosht", "sweep", "xnum"}
+\* thorough tier: every sequence of up to three section kinds / three segment kinds as well
+AllModesDeep == AllModes \cup {"triples", "segments3"}
 
 ClsLe == {<<32, TRUE>>, <<32, FALSE>>, <<64, TRUE>>, <<64, FALSE>>}
 AllMachines == {Code("EM_386"), Code("EM_X86_64"), Code("EM_ARM"), Code("EM_AARCH64"), Code("EM_MIPS"),
@@ -166,8 +168,9 @@ Init ==
   /\ done = (Mode \in {"sweep", "xnum"})
   /\ CASE Mode = "sections" -> \E cl \in ClsLe, m \in AllMachines : im = Base(cl, m) /\ tag = "sections"
        [] Mode = "pairs" -> \E cl \in ClsLe, m \in TwoMachines : im = Base(cl, m) /\ tag = "pairs"
-       [] Mode = "segments" -> \E cl \in ClsLe, m \in {Code("EM_X86_64"), Code("EM_ARM"), Code("EM_MIPS")} :
-                                   im = [Base(cl, m) EXCEPT !.secs = <<MkSec("text", cl[1], 0)>>] /\ tag = "segments"
+       [] Mode = "triples" -> \E cl \in {<<32, FALSE>>, <<64, TRUE>>} : im = Base(cl, IF cl[1] = 32 THEN Code("EM_ARM") ELSE Code("EM_X86_64")) /\ tag = "triples"
+       [] Mode \in {"segments", "segments3"} -> \E cl \in ClsLe, m \in {Code("EM_X86_64"), Code("EM_ARM"), Code("EM_MIPS")} :
+                                   im = [Base(cl, m) EXCEPT !.secs = <<MkSec("text", cl[1], 0)>>] /\ tag = Mode
        [] Mode = "placement" -> \E cl \in ClsLe, o \in {"A", "B", "C"}, g \in {0, 3}, se \in {0, 8, 64}, pe \in {0, 8}, sf \in BOOLEAN :
                                    /\ im = [Base(cl, 62) EXCEPT !.order = o, !.gap = g, !.shextra = se, !.phextra = pe, !.strfirst = sf,
                                                                  !.secs = <<MkSec("text", cl[1], 0), MkSec("bss", cl[1], 0)>>,
@@ -181,11 +184,11 @@ Init ==
 \* still being added; sections that must link to a string table link to the image's own name table,
 \* whose index is fixed up at Finish
 AddSection(kind) ==
-  /\ ~done /\ Mode \in {"sections", "pairs"} /\ Len(im.secs) < MaxSecs
+  /\ ~done /\ Mode \in {"sections", "pairs", "triples"} /\ Len(im.secs) < MaxSecs
   /\ im' = [im EXCEPT !.secs = Append(@, MkSec(kind, im.cls, 0))]
   /\ UNCHANGED <<done, tag, Mode>>
 AddSegment(kind) ==
-  /\ ~done /\ Mode = "segments" /\ Len(im.segs) < MaxSegs
+  /\ ~done /\ Mode \in {"segments", "segments3"} /\ Len(im.segs) < MaxSegs
   /\ im' = [im EXCEPT !.segs = Append(@, MkSeg(kind, im.cls))]
   /\ UNCHANGED <<done, tag, Mode>>
 NeedsStrLink(s) == s.name \in {DotSymtab, DotRela, DotDyn}
